@@ -247,8 +247,14 @@ impl SecondaryStorage {
             .commit_changes(vec![EpochOp::CreateTable(entry.clone())])
             .await?;
 
+        #[cfg(risinglight_verif)]
+        crate::verif::point("vm.committed", "create").await;
+
         // then apply to catalog
         self.apply_create_table(&entry)?;
+
+        #[cfg(risinglight_verif)]
+        crate::verif::point("ddl.create.applied", table_name).await;
 
         Ok(())
     }
@@ -283,6 +289,9 @@ impl SecondaryStorage {
         // contrary to create table, we first modify the catalog
         self.apply_drop_table(&entry)?;
 
+        #[cfg(risinglight_verif)]
+        crate::verif::point("ddl.drop.applied", &table_id.table_id.to_string()).await;
+
         changeset.push(EpochOp::DropTable(entry));
 
         let pin_version = self.version.pin();
@@ -311,6 +320,9 @@ impl SecondaryStorage {
 
         // and then persist to manifest
         self.version.commit_changes(changeset).await?;
+
+        #[cfg(risinglight_verif)]
+        crate::verif::point("vm.committed", "drop").await;
 
         Ok(())
     }
